@@ -247,23 +247,32 @@ inductive BfOp (α : Type) where
 structure BfState (α : Type) where
   volumes : Dict α                 -- topology.volumes
   templates : Dict (Template α)    -- BuildDirector.templates
-  resnamesToHash : Dict String     -- BuildDirector.resnames_to_hash
+  resnamesToHash : Dict (List String)   -- BuildDirector.resnames_to_hash (all template hashes of a residue name)
 
 def BfState.step (s : BfState α) : BfOp α → BfState α
   | .volume resname v => { s with volumes := s.volumes.set resname v }
   | .template resname hash coords vol =>
     { volumes := if s.volumes.has hash then s.volumes else s.volumes.set hash vol
       templates := s.templates.set hash (mapFromCoG coords)
-      resnamesToHash := s.resnamesToHash.set resname hash }
+      resnamesToHash := s.resnamesToHash.set resname ((s.resnamesToHash.get? resname).getD [] ++ [hash]) }
 
-/-- the loop at the end of `BuildDirector.finalize`: the user's size of a residue name is ALSO stored under
-the hash of the user's template of that name (it stays available under the name for residues of the same
-name but another graph) -/
-def rekeyVolumes (volumes : Dict α) (r2h : Dict String) : Dict α :=
-  r2h.foldl (fun vols rh =>
+/-- one assignment `volumes[graph_hash] = volumes[resname]` per (residue name, hash) pair, skipped when the
+residue name has no size -/
+def rekeyPairs (volumes : Dict α) (pairs : List (String × String)) : Dict α :=
+  pairs.foldl (fun vols rh =>
     match vols.get? rh.1 with
     | some v => vols.set rh.2 v
     | none => vols) volumes
+
+/-- `resnames_to_hash.items()` with the inner loop over the hashes unrolled -/
+def r2hPairs (r2h : Dict (List String)) : List (String × String) :=
+  r2h.flatMap fun rh => rh.2.map fun h => (rh.1, h)
+
+/-- the loop at the end of `BuildDirector.finalize`: the user's size of a residue name is ALSO stored under
+the hash of EVERY user template of that name (it stays available under the name for residues of the same
+name but another graph) -/
+def rekeyVolumes (volumes : Dict α) (r2h : Dict (List String)) : Dict α :=
+  rekeyPairs volumes (r2hPairs r2h)
 
 /-- a whole build file: returns `topology.volumes` and the dict every molecule gets as `.templates` -/
 def readBuildFile (volumes0 : Dict α) (ops : List (BfOp α)) : Dict α × Dict (Template α) :=
